@@ -1,6 +1,7 @@
 (* Extraction of the C08 capability model (with the generated tables) to OCaml (ExtrOcamlBasic only;
    Coq strings stay the String/Ascii datatypes, converted in ocaml/c08/run.ml). *)
 From Coq Require Import ZArith String ExtrOcamlBasic.
-Require Import ZV.Generated.SandboxTables ZV.Model.Sandbox ZV.Model.Cmdline.
+Require Import ZV.Generated.SandboxTables ZV.Model.Sandbox ZV.Model.Cmdline ZV.Model.Family.
 Extraction "model.ml" Z.add Z.mul Z.opp Z.div_eucl Z.of_nat Z.to_nat Z.compare
-  predicted_effects sandboxed run_abs impure_entries cfg_name run_cmdline last_sandbox is_flag session.
+  predicted_effects sandboxed run_abs impure_entries cfg_name run_cmdline last_sandbox is_flag session
+  ctx_of run_family names_of flag_of origin_of family_predicted construction scan st0.
